@@ -103,7 +103,7 @@ func RunSeq(sc SeqScenario) (evs []Ev, inconclusive string) {
 		pc.OverflowConfig.BlockTimeout = time.Duration(sc.Perf.BlockMs) * time.Millisecond
 		opts = append(opts, streamsql.WithCustomPerformance(pc))
 	}
-	s := streamsql.New(opts...)
+	s := newInstance(opts...)
 	reset := Ev{"tr": sc.Tr, "e": "reset"}
 	for k, v := range sc.Meta {
 		reset[k] = v
